@@ -109,10 +109,8 @@ impl Arg {
                 '\\' => "'\\\\'".into(),
                 '\n' => "'\\n'".into(),
                 '\t' => "'\\t'".into(),
-                c if c.is_ascii() => format!("'{}'", c),
-                // a non-ASCII char literal panics in the tokenizer (finding `panic:parser/src/str_suffix.rs`),
-                // so such characters are obtained from a string literal instead
-                c => format!("(strp.char_at \"{}\" 0)", c),
+                // non-ASCII char literals lex since /repo dc01a7c (they panicked the tokenizer before: D13)
+                c => format!("'{}'", c),
             },
             Arg::U => "()".into(),
             Arg::AI(v) => format!(
